@@ -290,7 +290,13 @@ def doSend (e : Env) (tag : String) (hdr pl : Bytes) : Env × Bool × String × 
   | .refused => ({ e with send := s' }, false, tag ++ "=refused", sp)
   | .ok => ({ e with send := s', specBusy := true, specPending := hdr ++ pl }, true, tag ++ "=ok", sp)
 
-/-- What the adapter's read future does when polled now (`await = false`) or when awaited. -/
+/-- What the adapter's read future does when polled now (`await = false`) or when awaited.
+    Quinn reports the peer's reset ONCE: `poll_read_generic` sets `all_data_read` together with
+    `Err(Reset(code))`, and every later read of that stream answers `Ok(None)` — so a `poll_data` made
+    after `StreamTerminated{code}` was reported answers the end of the stream (`allRead`). That is
+    Quinn's answer, handed on unchanged by the adapter; the specification demands the class and the
+    code on the first read that meets the reset and has no opinion on later reads (reading R-17,
+    observation (b); what h3 makes of such a read is R-07 (a) / O-07b). -/
 def readEv (e : Env) (await : Bool) : ReadEv × Env :=
   if e.zeroRej then (.err .zeroRttRejected, e) else
   if e.allRead then (.fin, e) else
